@@ -31,6 +31,13 @@ func genAffinityPlan(seed uint64, tier string) *Plan {
 		l.UDP = 5060
 	}
 	l.NoReceived = g.pick("", "", "false", "true")
+	if g.chance(10) {
+		// a slow node: requests and answers that arrive at different instants queue up inside the proxy
+		if c.Knobs == nil {
+			c.Knobs = map[string]int{}
+		}
+		c.Knobs["recvCostUs"] = g.pick2(100, 500, 2000)
+	}
 	for b := 0; b < 1+g.intn(3); b++ {
 		l.Backends = append(l.Backends, fmt.Sprintf("udp://10.2.0.%d:5070", b+1))
 	}
